@@ -44,7 +44,7 @@ def gen_items(rng, N, allow_none=True, nonempty=True):
         if not nonempty or all(it[0] != "s" or slice_len(n, it) > 0 for it, n in zip([i for i in items if i[0] != "n"], N)):
             return items
 
-def gen_case(rng, car):
+def _gen_case0(rng, car):
     cplx = car is coqrun.ZI
     r = rng.random()
     if r < 0.55:                                   # full tuples: ints (negative too), slices with steps, None
@@ -102,7 +102,21 @@ def gen_case(rng, car):
     x, N = gen_tt(rng, cplx)                       # apply_mask
     M_ = rng.choice([1, 2, 3, 6])
     neg = rng.random() < 0.4                        # negative entries count from the end, as in x[index] and in the dense array
-    return Mask(x, [[(rng.randrange(n) - n if (neg and rng.random() < 0.5) else rng.randrange(n)) for n in N] for _ in range(M_)]), "apply_mask" + ("-negative" if neg else ""), None
+    e = Mask(x, [[(rng.randrange(n) - n if (neg and rng.random() < 0.5) else rng.randrange(n)) for n in N] for _ in range(M_)])
+    kind = "int64"
+    if rng.random() < 0.5:                          # the index matrix in another integer type / container (an index matrix is never a mask)
+        kind = rng.choice(["int32", "int16", "int8", "numpy-int64", "numpy-int32", "list"] + ([] if neg else ["uint8", "uint8", "numpy-uint8"]))
+        if kind in ("uint8", "numpy-uint8") and rng.random() < 0.5 and N:       # as many rows as the first mode has entries, 0/1 entries: the shape a byte mask would have
+            e = Mask(x, [[rng.randrange(min(2, n)) for n in N] for _ in range(N[0])])
+        e.index_kind = kind
+    return e, "apply_mask" + ("-negative" if neg else "") + ("" if kind == "int64" else "[" + kind + "]"), None
+
+def gen_case(rng, car):
+    e, cat, x = _gen_case0(rng, car)
+    if isinstance(e, Get) and any(it[0] == "i" for it in e.items) and rng.random() < 0.2:      # the integers of the index as numpy integers / 0-d integer tensors
+        e.int_kind = rng.choice(["numpy-int64", "numpy-int32", "tensor0d"])
+        cat = cat + "[" + e.int_kind + "]"
+    return e, cat, x
 
 def nontrivial(e, cat):
     return any(isinstance(a, (Lit3, Lit4)) and any(c.shape[-1] > 1 for c in a.cores[:-1]) for a in e.args)
@@ -138,7 +152,27 @@ def exhaustive_tuples(rng):
 def _stale_block(V, rng, tier):
     """apply_mask / full read, the object changed in place, read again - see harness/staleprobe.py"""
     import torch, torchtt, staleprobe
-    return {"read_mutate_read_probe_readouts": staleprobe.run_block(V, rng, torch, torchtt, "apply_mask / full", ["cores", "svd", "arith"], 8 if tier == "quick" else 80)}
+    out = {"read_mutate_read_probe_readouts": staleprobe.run_block(V, rng, torch, torchtt, "apply_mask / full", ["cores", "svd", "arith"], 8 if tier == "quick" else 80)}
+    # a Python bool is an int subclass but no index: torch / numpy read it as a mask (a new axis). Either the dense result comes back, or the call is refused -
+    # never an object of another shape or other entries
+    import history
+    nb = 0
+    for j in range(12 if tier == "quick" else 120):
+        x = history.rand_tt(rng, [torch.float64, torch.complex128][j % 2], d=[1, 2, 3, 3][j % 4])
+        N = [int(n_) for n_ in x.N]; k = rng.randrange(len(N)); b = bool(j % 3)
+        idx = [rng.randrange(n_) if rng.random() < 0.6 else slice(None) for n_ in N]; idx[k] = b
+        idx = tuple(idx) if (len(N) > 1 or j % 2) else idx[0]
+        desc = {"bool_index": True, "N": N, "index": str(idx)}
+        try: got = x[idx]
+        except Exception: nb += 1; continue
+        try:
+            ref = x.full()[idx]; g = got.full() if isinstance(got, torchtt.TT) else got
+            if list(g.shape) != list(ref.shape) or not (float((g - ref).abs().max()) if ref.numel() else 0.0) <= 1e-12: V.fail("a bool in the index: the result is neither the dense result nor a refusal", dict(desc, got_shape=list(g.shape), dense_shape=list(ref.shape)))
+        except Exception as ex:
+            V.fail("a bool in the index: the result is neither the dense result nor a refusal", dict(desc, exc=str(ex)[:200]))
+        nb += 1
+    out["bool_index_cases"] = nb
+    return out
 
 def run(tier, seed, replay=None):
     import torch
